@@ -1,4 +1,4 @@
-import DuneVerif.Model.C03
+import DuneVerif.Model.C03World
 /-! line-protocol driver for C03:  `<CFG> : op;op;…`  (ops as documented in harness/cxx_c03.cc).
 `CFG = N` is `ParallelIndexSet<long, ParallelLocalIndex<Flag>, N>`; the chunk size `N` of the underlying ArrayList does
 not influence the abstract sequence (C11).  `CFG = NL` is `ParallelIndexSet<int, LocalIndex, N>`: the same model with
@@ -47,6 +47,10 @@ def parseOp (plain : Bool) (s : String) : Option Op :=
       if a ≤ 3 ∧ p ≤ 1 ∧ (plain → a = 0 ∧ p = 0) ∧ l ≤ 9223372036854775807 then some (.add g l a (p == 1)) else none
     | _, _, _, _ => none
   | ["ag", g] => (parseG plain g).map .addG
+  | ["aa", g, a, p] =>   -- add(G, ParallelLocalIndex(attribute, isPublic)): local number 0
+    match parseG plain g, a.toNat?, p.toNat? with
+    | some g, some a, some p => if a ≤ 3 ∧ p ≤ 1 ∧ !plain then some (.add g 0 a (p == 1)) else none
+    | _, _, _ => none
   | ["d", g, a] =>
     match g.toInt?, a.toInt? with
     | some g, some a => if a < 0 then some (.markDel g 1000) else some (.markDel g a.toNat)
@@ -78,16 +82,31 @@ def tableTooLarge (s : ISet) : Op → Bool
   | .lookupN _ => s.loc.any (·.l.loc > 100000)
   | _ => false
 
+/-- ops on the second object: `c` copy-construct the snapshot, `y` assign it back, `v` look at it -/
+def parseWOp (plain : Bool) (s : String) : Option WOp :=
+  match tokens s with
+  | ["c"] => some .snapshot
+  | ["y"] => some .restore
+  | ["v"] => some .view
+  | _ => (parseOp plain s).map .op
+
+def showWObs : WObs → String
+  | .base s o => showObs s o
+  | .ok => "ok"
+  | .skip => "skip"
+  | .view sn eq =>
+    s!"{sn.seq}:{if sn.st == .resize then "R" else "G"}:{showList (sn.loc.map showPair)}:{if eq then "eq" else "ne"}"
+
 /-- run the ops one by one; a history that closes a resize phase with two equal (global, attribute) keys is outside
 the property's quantifier (the harness prints `outside` for it as well) -/
-def runOps : ISet → List Op → List String → Option (List String)
+def runOps : World → List WOp → List String → Option (List String)
   | _, [], acc => some acc.reverse
-  | s, op :: ops, acc =>
-    if op = .endResize ∧ closesOutside s then none
-    else if tableTooLarge s op then runOps s ops ("skip" :: acc)
+  | w, op :: ops, acc =>
+    if op = .op .endResize ∧ closesOutside w.cur then none
+    else if (match op with | .op o => tableTooLarge w.cur o | _ => false) then runOps w ops ("skip" :: acc)
     else
-      let (s', o) := step s op
-      runOps s' ops (showObs s o :: acc)
+      let (w', o) := stepW w op
+      runOps w' ops (showWObs o :: acc)
 
 def handle (line : String) : String :=
   match line.splitOn " :" with
@@ -97,10 +116,10 @@ def handle (line : String) : String :=
       if n ∉ ["0", "1", "2", "3", "4", "5", "8", "100", "1L", "15L", "25L"] then "bad-op" else
       let plain := n.toList.getLast? == some 'L'
       let segs := (rest.splitOn ";").filter fun s => tokens s ≠ []
-      match segs.mapM (parseOp plain) with
+      match segs.mapM (parseWOp plain) with
       | none => "bad-op"
       | some ops =>
-        match runOps init ops [] with
+        match runOps World.init ops [] with
         | none => "outside"
         | some obs => ";".intercalate obs
     | _ => "bad-op"
